@@ -57,4 +57,9 @@ CHECKS = {
   "text": "About 1900 histories (<=25 steps) per quick run, 5e4 thorough; every step is followed by the structural invariants. Exploration level over histories.",
   "note": "Trusted: the harness's own bookkeeping of tie classes and fixed sets. Outside asserted domain (counted): switch to Cartesian for variables that only share a radius or have exactly one fixed component. Histories are op-lists (replayable JSON) rather than Hypothesis RuleBasedStateMachine objects.",
  },
+ "C10": {
+  "technique": "property-based testing: Hypothesis-drawn masses/sizes/seeds/nestings with exact kinematic oracles (count, mass shell, conservation, weight<=1) and statistical oracles (KS tests of every pair-mass spectrum against an independently integrated recursive LIPS density, isotropy, flat Dalitz helicity cosine) at per-run false-alarm probability <1e-8",
+  "text": "About 180 generated generators per quick run (n=2..6, nested depth<=3) plus 24 distribution samples of 2e4-5e4 events; thorough 2e3 + 190 samples of 5e4-1e5. Exploration level; distributional clauses are statistical.",
+  "note": "Trusted: numpy kinematics, Gauss-Legendre reference density (checked against brute-force integration), scipy KS p-values. After cal_max_weight only the default importance-weighted acceptance weight is asserted <=1. Generators with acceptance <2e-5 (uncalibrated many-body) are counted, not sampled.",
+ },
 }
